@@ -112,6 +112,10 @@ def gen_cases(engine, rng, tier):
             k = rng.choice([499, 500, 501, 502])
             chunks = [hello, session_gen.mail(rng, 'ok')] + [b'RCPT TO:<alice@example.org>\r\n'] * k + [b'DATA\r\n', b'x\r\n.\r\n']
             cfg = 'relay=none;ip=v4;databytes=0;qq=ok'
+        if kind in ('size', 'hops', 'strict') and rng.random() < 0.3:
+            # the same on the submission port (587, client in relayclients): the header checks run there as in strict mode, the
+            # Date / From / Message-Id fields the server adds are not counted into the size
+            cfg = cfg.replace('relay=none', 'relay=listed') + ';port=587'
         out.append(session_gen.case(cfg, chunks))
     return out + session_gen.gen(rng, 100 if tier == 'quick' else 2000)
 
